@@ -24,6 +24,10 @@ struct CaseP {
     /// the closure (as in every relation written as a function): reaching it repeatedly works
     /// on the pinned tree and is not the recorded finding
     rebuilt_per_visit: bool,
+    /// the expected answers are those of the same program without `project`, run by the library
+    /// itself (the projected variable is not ground here: unbound, or partially bound, possibly
+    /// with finite-domain variables still to be labelled)
+    differential: bool,
 }
 
 fn strip_project(g: &G) -> G {
@@ -84,7 +88,7 @@ fn cases() -> Vec<CaseP> {
             for (body, v) in forms {
                 let program = Program { nq: 2, body: body.clone() };
                 let reference = Program { nq: 2, body: body.iter().map(strip_project).collect() };
-                out.push(CaseP { program, reference, visits: v, rebuilt_per_visit: false });
+                out.push(CaseP { program, reference, visits: v, rebuilt_per_visit: false, differential: false });
             }
             // the project goal behind a closure (one closure goal object entered by every state
             // of the generator), directly and below a fresh clause
@@ -96,7 +100,37 @@ fn cases() -> Vec<CaseP> {
             for body in forms2 {
                 let program = Program { nq: 2, body: body.clone() };
                 let reference = Program { nq: 2, body: body.iter().map(strip_project).collect() };
-                out.push(CaseP { program, reference, visits: *visits, rebuilt_per_visit: true });
+                out.push(CaseP { program, reference, visits: *visits, rebuilt_per_visit: true, differential: false });
+            }
+        }
+    }
+    // the projected variable is not ground when the goal is reached: unbound, a list with an
+    // unbound element, with and without finite-domain variables still to be labelled; reached
+    // once (directly) and by two states (behind a closure)
+    let open_gens: Vec<Vec<G>> = vec![
+        vec![],
+        vec![G::Eq(x.clone(), T::list(vec![y.clone(), T::I(5)]))],
+        vec![G::InFd(vec![y.clone()], Dom::Range(1, 2))],
+        vec![G::InFd(vec![y.clone()], Dom::Range(1, 2)), G::Eq(x.clone(), T::list(vec![y.clone()]))],
+    ];
+    let open_bodies: Vec<Vec<G>> = vec![
+        vec![G::Eq(q.clone(), x.clone())],
+        vec![G::Eq(q.clone(), T::list(vec![x.clone(), y.clone()]))],
+        vec![G::Closure(Box::new(G::Eq(q.clone(), T::list(vec![x.clone()]))))],
+        vec![G::Neq(q.clone(), x.clone())],
+    ];
+    for g in &open_gens {
+        for b in &open_bodies {
+            let proj = G::Project(vec![1], b.clone());
+            let mut direct = g.clone();
+            direct.push(proj.clone());
+            let mut twice = g.clone();
+            twice.push(G::Conde(vec![vec![G::Eq(T::V(5), T::I(1))], vec![G::Eq(T::V(5), T::I(2))]]));
+            twice.push(G::Closure(Box::new(proj.clone())));
+            for (body, visits, rebuilt) in [(direct, 1usize, false), (twice, 2usize, true)] {
+                let program = Program { nq: 2, body: vec![G::Fresh(vec![2, 5], body.clone())] };
+                let reference = Program { nq: 2, body: vec![G::Fresh(vec![2, 5], body.iter().map(strip_project).collect())] };
+                out.push(CaseP { program, reference, visits, rebuilt_per_visit: rebuilt, differential: true });
             }
         }
     }
@@ -129,6 +163,10 @@ fn check(c: &CaseP, index: usize) -> (Vec<Violation>, &'static str) {
             expected.push(canon_tuple(&qv.iter().map(|t| s.sigma.apply(t)).collect::<Vec<_>>()));
         }
     }
+    if c.differential {
+        let r = run_query_with::<DU, DE>(nvars, &c.reference, DefaultUser::new(), (), 100, 200_000, vec![]);
+        expected = r.answers.iter().map(|a| a.terms.clone()).collect();
+    }
     expected.sort();
     let class = if c.visits >= 2 && c.rebuilt_per_visit {
         "project-in-closure-reached-2plus-times"
@@ -156,7 +194,7 @@ fn check(c: &CaseP, index: usize) -> (Vec<Violation>, &'static str) {
 }
 
 pub fn run(ctx: &mut Ctx) {
-    ctx.set("rule", json!("E3: 12 generators that reach the project goal with 1..4 states (bindings, conde of 2-4 arms, nested conde, a partially bound list completed per branch, a generator behind a closure, a binary Disj reaching it twice with the same value, the projected variable aliased to another variable whose value arrives later - directly, through a chain, as a list; lists whose head / elements and tail are bound separately afterwards) x 7 bodies (q == x; q == [x, x]; an fngoal that inspects the projected term structurally; the read delayed behind a closure; a conde of reads; a branching body whose read is delayed; doubly delayed) x 7 nestings (directly after the generator, below a fresh clause, in a conde arm next to a failing arm, generator and project inside one arm; and with the project goal behind a closure - the form every relation written as a function has - directly, below fresh, and with the generator inside an outer closure: there the goal is rebuilt for every entering state, so every one of the 2..4 states must see its own value). Oracle: for ground values `project |x| { body }` has the answers of `body`; no panic. distinct_nontrivial = cases whose project goal is reached by >= 2 states."));
+    ctx.set("rule", json!("E3: 12 generators that reach the project goal with 1..4 states (bindings, conde of 2-4 arms, nested conde, a partially bound list completed per branch, a generator behind a closure, a binary Disj reaching it twice with the same value, the projected variable aliased to another variable whose value arrives later - directly, through a chain, as a list; lists whose head / elements and tail are bound separately afterwards) x 7 bodies (q == x; q == [x, x]; an fngoal that inspects the projected term structurally; the read delayed behind a closure; a conde of reads; a branching body whose read is delayed; doubly delayed) x 7 nestings, plus 4 generators that leave the projected variable unbound or partially bound (with finite-domain variables still to be labelled) x 4 bodies reached once and twice, judged against the same program without project run by the library (directly after the generator, below a fresh clause, in a conde arm next to a failing arm, generator and project inside one arm; and with the project goal behind a closure - the form every relation written as a function has - directly, below fresh, and with the generator inside an outer closure: there the goal is rebuilt for every entering state, so every one of the 2..4 states must see its own value). Oracle: for ground values `project |x| { body }` has the answers of `body`; no panic. distinct_nontrivial = cases whose project goal is reached by >= 2 states."));
     let cs = cases();
     let sel: Vec<usize> = match &ctx.replay {
         Some(r) if r.family == "c11" => vec![r.index],
